@@ -542,7 +542,12 @@ def cbmc_flags(case, unwind):
     return ['--bounds-check', '--pointer-check', '--div-by-zero-check', '--undefined-shift-check',
             '--unwind', str(unwind), '--unwinding-assertions', '--object-bits', '12', '--slice-formula',
             '--max-field-sensitivity-array-size', str(case.fs_array or 256),
-            '--verbosity', '8']
+            '--verbosity', '8'] + ['--sat-solver', case_solver(case)]
+
+def case_solver(case):
+    """SAT back end: CaDiCaL by default (cbmc's default MiniSat was observed to hang in its second incremental call
+    on tiny UF instances and is slower on the adder-equivalence problems here); a unit may set case.solver."""
+    return getattr(case, 'solver', None) or os.environ.get('VERIF_SAT', 'cadical')
 
 def default_unwind(case):
     if case.unwind: return case.unwind
@@ -874,7 +879,9 @@ def stage_replay(args):
             mod = ir2c.parse_module(open(os.path.join(gdir, 'unit.ll')).read())
             ctext, info = ir2c.translate(mod, [name], atoms=False, contracts={}, data_bits=case_data_bits(case), param_bits=[b.ty.bits for b in case.bufs])
             hfile = os.path.join(gdir, name + '.cex.c')
-            open(hfile, 'w').write(prelude_text(case) + ctext + harness_main(case, name))
+            # counterexample search: drop the (always failing) vacuity canary, otherwise --stop-on-fail may stop at it
+            htext = '\n'.join(l for l in harness_main(case, name).split('\n') if 'VACUITY-CANARY' not in l)
+            open(hfile, 'w').write(prelude_text(case) + ctext + htext)
             unwind = default_unwind(case)
             r = run_cbmc_on(hfile, name, 'harness', unwind, 300, cbmc_flags(case, unwind) + ['--trace', '--stop-on-fail'])
             if r.get('log'):
@@ -925,7 +932,7 @@ TRUSTED_BASE = [
     'clang++-14 front end and the fixed IR pipeline (P1: -O1 -fno-vectorize -fno-slp-vectorize -fno-unroll-loops -ffp-contract=off; P0: -O0 + opt always-inline,sroa,early-cse,simplifycfg,inline,dce)',
     'tools/ir2c.py LLVM-IR -> C translation and its intrinsic table (must-fire: unknown construct => undecided)',
     'tools/prelude/*.h (mode macros, exception/allocation stubs)',
-    'CBMC 6.11.0 (goto-cc, goto-instrument --dfcc, cbmc, MiniSat back end) and its C library models',
+    'CBMC 6.11.0 (goto-cc, goto-instrument --dfcc, cbmc, CaDiCaL SAT back end) and its C library models',
     'GCC code generation is not modelled (clang IR only); strict-aliasing UB is invisible (memory is bytes)',
 ]
 DROPPED = [
@@ -1060,7 +1067,7 @@ def run_property(prop, cases, tier, seed, jobs=None, keep=False, group_size=10, 
             'obligations': n_obl - kn_obl, 'discharged': n_dis - kn_dis,
             'checker_cmd': 'clang++-14 <cfg> -S -emit-llvm | tools/ir2c.py | goto-cc | goto-instrument --dfcc main --enforce-contract <entry> | cbmc ' + ' '.join(cbmc_flags(cases[0], 'N')) if cases else '',
             'trusted_base': TRUSTED_BASE,
-            'backend': 'cbmc 6.11.0, SAT back end MiniSat 2.2.1 (default); contracts enforced by goto-instrument --dfcc',
+            'backend': 'cbmc 6.11.0 with --sat-solver %s; contracts enforced by goto-instrument --dfcc' % (case_solver(cases[0]) if cases else 'cadical'),
             'cases': len(cases), 'cases_proved': passed, 'cases_by_mode': by_mode,
             'cases_by_enforcement': forms,
             'enforcement_note': 'dfcc = contract enforced by goto-instrument --dfcc (requires/assigns/ensures instrumentation); assertion = the same requires/ensures clauses as assume/assert around a call on exact-extent nondeterministic objects, frame checked as inputs-unchanged + pointer checks (used where the DFCC-instrumented program exceeded the %ds / 4 GB budget)' % DFCC_BUDGET,
